@@ -62,6 +62,20 @@ CLAIMS = {
              "lattices is decided by counting on the implementation (2^(F-1) distinct sectors, each with the parity of C05.global_product), the surjectivity "
              "theorem itself is not yet proved in Lean. 'Does not modify its input' is checked dynamically here and statically under C15.",
         ref="§7 C14"),
+    "C06": dict(
+        technique="Lean 4 proof (solver invariant flux·toFlip = target; two-ends law for chains; parity/residual contract; translated ansatz) + model replay with recorded paths",
+        text="Kernel-checked theorems about the executable solver model, for every plaquette system with the C01/C02 table properties, every target, every guess "
+             "and both flux conventions (single-bond locality proved for Π(−u·d) and for sign_real[n%4]·Π(u·d)): flipping a chain of plaquettes toggles exactly its "
+             "two ends; the adjacent-pair pass and every path step keep flux(bonds)·to_flip = target; each step removes exactly two plaquettes from the to-do list; "
+             "hence the result equals the target everywhere when the number of plaquettes to change is even and everywhere but exactly one when odd. "
+             "ground_state_ansatz and sign_real are regenerated from the source: ansatz(n) = −sign_real[n%4] for all n≥3, and on a closed trivalent lattice (E=3F, "
+             "global product law) the ansatz needs an even number of changes. The model is run with the implementation's own recorded paths as oracle, checks "
+             "them to be chains and the pairing to be complete, and must reproduce the bonds bit for bit; the contract, int8/±1, no exception, untouched arguments, "
+             "make_amorphous (seeded reproducibility, proper colouring, ansatz exact/up to one) and make_honeycomb are evaluated on the implementation.",
+        note="Trusted: Lean kernel/Mathlib/standard axioms; translator; harness. The path finder is a parameter of the model (C11 decides it); 'never raises' is therefore "
+             "partial: proved given paths that are chains, and exercised on every generated input (maxits = n_edges budget not proved). Euler's formula E=3F is a "
+             "monitored hypothesis. Python set iteration order in the greedy pairing is not modelled (any complete pairing satisfies the theorem).",
+        ref="§7 C06"),
 }
 
 PENDING_REASON = "check not built yet in this revision (work in progress; see DESIGN.md §7 for the planned Lean model and tie)"
